@@ -455,7 +455,9 @@ class STensor:
 
     view = reshape
 
-    def flatten(self, start=0, end=-1) -> "STensor":
+    def flatten(self, start=0, end=-1, start_dim=None, end_dim=None) -> "STensor":
+        start = start if start_dim is None else start_dim
+        end = end if end_dim is None else end_dim
         nd = self.ndim
         if nd == 0:
             return self.reshape(1)
@@ -1650,7 +1652,7 @@ def arange(*args, dtype=None, device=None) -> STensor:
     return STensor.from_flat(out, [n], d)
 
 
-def linspace(start, end, steps, dtype=None, device=None) -> STensor:
+def linspace(start, end, steps, dtype=None, device=None, requires_grad=False, **_k) -> STensor:
     start, end, steps = to_rat(start), to_rat(end), simplify(steps)
     if steps == 1:
         return STensor.from_flat([start], [1], FLOAT)
